@@ -33,40 +33,8 @@ func zzvHeaderRoundTrip(form bool, node Node, filename string) (string, os.FileI
 	return name, fileInfo(name, part), h.Get(contentDispositionHeader)
 }
 
-// HarnessC39Meta: form mode, fixed name. Mode (0 = unset .. 07777) symbolic; mtime unset / set with seconds
-// = base (pool of concrete instants incl. the int64 extremes) + symbolic offset in [-W, W] and nanoseconds
-// unset / base + symbolic offset. The parsed part must carry the same mode and the same mtime, unset staying unset.
-func HarnessC39Meta() {
-	w := int64(verifrt.Param("W", 999))
-	mode := verifrt.NondetU32("mode")
-	verifrt.Assume(mode <= 0o7777)
-	node := &zzvMeta{mode: os.FileMode(mode)}
-
-	hasMtime := verifrt.NondetRange("hasMtime", 0, 1) == 1
-	var secs, ns int64
-	if hasMtime {
-		// seconds: a symbolic window around the epoch, or one of a few concrete far-away instants (decimal
-		// formatting of a symbolic full-width integer is nested 64-bit division, which the solver does not finish)
-		samples := []int64{1_000_000_000, 1_758_000_000, -2_000_000_000, 253_402_300_799, math.MaxInt64, math.MinInt64}
-		if k := verifrt.NondetRange("secKind", 0, len(samples)); k == 0 {
-			secs = verifrt.NondetI64("d")
-			verifrt.Assume(secs >= -w && secs <= w)
-		} else {
-			secs = samples[k-1]
-		}
-		switch verifrt.NondetRange("nsKind", 0, 2) {
-		case 1:
-			ns = verifrt.NondetI64("ns")
-			verifrt.Assume(ns >= 0 && ns <= w)
-		case 2:
-			dn := verifrt.NondetI64("ns")
-			verifrt.Assume(dn >= 0 && dn <= w)
-			ns = 999_999_999 - dn
-		}
-		node.mtime = time.Unix(secs, ns)
-		verifrt.Assume(!node.mtime.IsZero()) // the zero instant *is* "unset"
-	}
-
+// zzvCheckMeta asserts the metadata part of the round trip for one part.
+func zzvCheckMeta(node *zzvMeta, hasMtime bool, secs, ns int64) {
 	name, fi, cd := zzvHeaderRoundTrip(true, node, "a")
 	verifrt.Observe("cd", cd)
 	verifrt.Assert("C39.name-fixed", name == "/a")
@@ -76,7 +44,7 @@ func HarnessC39Meta() {
 		return
 	}
 	verifrt.Observe("mode", uint32(fi.Mode()))
-	verifrt.Assert("C39.mode-roundtrip", fi.Mode() == os.FileMode(mode))
+	verifrt.Assert("C39.mode-roundtrip", fi.Mode() == node.mode)
 	got := fi.ModTime()
 	verifrt.Observe("zero", got.IsZero())
 	if !hasMtime {
@@ -88,6 +56,60 @@ func HarnessC39Meta() {
 		verifrt.Assert("C39.mtime-equal", got.Equal(node.mtime))
 	}
 	verifrt.Reach("end")
+}
+
+// HarnessC39Mode: form mode, fixed name; the mode is symbolic (0 = unset .. 07777), next to an mtime that is
+// unset / whole seconds / seconds+nanoseconds. Mode and mtime come back as written, unset staying unset.
+func HarnessC39Mode() {
+	mode := verifrt.NondetU32("mode")
+	verifrt.Assume(mode <= 0o7777)
+	node := &zzvMeta{mode: os.FileMode(mode)}
+	k := verifrt.NondetRange("mtimeKind", 0, 2)
+	var secs, ns int64
+	if k >= 1 {
+		secs = 12
+		if k == 2 {
+			ns = 34
+		}
+		node.mtime = time.Unix(secs, ns)
+	}
+	zzvCheckMeta(node, k >= 1, secs, ns)
+}
+
+// HarnessC39Mtime: form mode, fixed name; mode unset or 0644; mtime unset, or set with seconds symbolic in
+// [-W, W] or one of a few concrete far-away instants (incl. the int64 extremes), nanoseconds absent, symbolic
+// in [0, W] or one of a few concrete values up to 999999999.
+func HarnessC39Mtime() {
+	w := int64(verifrt.Param("W", 999))
+	node := &zzvMeta{}
+	if verifrt.NondetRange("hasMode", 0, 1) == 1 {
+		node.mode = 0o644
+	}
+	hasMtime := verifrt.NondetRange("hasMtime", 0, 1) == 1
+	var secs, ns int64
+	if hasMtime {
+		// decimal formatting of a symbolic full-width integer is nested 64-bit division, which the solver does
+		// not finish: the far-away instants are concrete samples
+		samples := []int64{1_000_000_000, 1_758_000_000, -2_000_000_000, 253_402_300_799, math.MaxInt64, math.MinInt64}
+		if k := verifrt.NondetRange("secKind", 0, len(samples)); k == 0 {
+			secs = verifrt.NondetI64("d")
+			verifrt.Assume(secs >= -w && secs <= w)
+		} else {
+			secs = samples[k-1]
+		}
+		nsSamples := []int64{999_999_999, 1_000_000, 123_456_789}
+		switch k := verifrt.NondetRange("nsKind", 0, 1+len(nsSamples)); k {
+		case 0:
+		case 1:
+			ns = verifrt.NondetI64("ns")
+			verifrt.Assume(ns >= 0 && ns <= w)
+		default:
+			ns = nsSamples[k-2]
+		}
+		node.mtime = time.Unix(secs, ns)
+		verifrt.Assume(!node.mtime.IsZero()) // the zero instant *is* "unset"
+	}
+	zzvCheckMeta(node, hasMtime, secs, ns)
 }
 
 // HarnessC39Name: entry path text of 1..N bytes over an alphabet of reserved characters, both dispositions,
